@@ -329,12 +329,18 @@ class Engine:
                 pass
         return ob.status == "discharged"
 
-    def satisfiable(self, name, extra=()):
-        """vacuity guard: the path condition (+extra) must be satisfiable"""
+    def satisfiable(self, name, extra=(), lenient=False):
+        """vacuity guard: the path condition (+extra) must be satisfiable.  lenient: only a PROVED inconsistency (unsat)
+        fails the guard -- used at the end of a path, where facts assumed on the way (non-zero denominators, ranges of
+        random draws) must not have made the path condition contradictory; `unknown` says nothing there"""
         ob = Obligation(f"{self.func_name}::{name}", "vacuity")
         ob.path, ob.func = self.path_id, self.func_name
         self.obligations.append(ob)
         st, _ = check_sat(self.pc + self.hyps + list(extra), try_abstract=False)
+        if lenient:
+            ob.status = "refuted" if st == "unsat" else "discharged"
+            ob.note = f"path condition at the end of the path: {st} (only unsat would be a vacuous proof)"
+            return st != "unsat"
         ob.status = "discharged" if st == "sat" else ("unknown" if st == "unknown" else "refuted")
         ob.note = "requires/path condition satisfiable"
         return st == "sat"
